@@ -3,6 +3,8 @@
 #include "harness/c01.h"
 
 #include <cnl/rounding_integer.h>
+#include <cnl/overflow_integer.h>
+#include <cnl/wide_integer.h>
 #include <cnl/_impl/rounding.h>
 #include <cmath>
 
@@ -121,6 +123,75 @@ void rdiv(char const* desc)
                 if (a2 >= xmin<L>() && a2 <= xmax<L>()) one(c01::from_x<L>(a2), b, false);
             }
             one(rand_val<L>(rng), b, false);
+        }
+    }
+    t.emit();
+}
+
+// division of rounding_integer over class-type representations (elastic_integer, wide_integer, overflow_integer<elastic>): same
+// oracle; the quotient type is whatever CNL deduces and must be able to hold the rounded quotient (else out of domain)
+template<class M, class LR, class RR>
+void rdiv_class(char const* desc)
+{
+    if (!kernel_selected(desc)) return;
+    using Tag = typename M::tag;
+    using WL = cnl::rounding_integer<LR, Tag>;
+    using WR = cnl::rounding_integer<RR, Tag>;
+    using Q = decltype(std::declval<WL>() / std::declval<WR>());
+    Tally t(desc);
+    Rng rng(mix(env_seed(), hash_str(desc)));
+    size_t na, nb;
+    auto as = RT<LR>::values(rng, na, env_long("VERIF_NRAND", 300), 16);
+    auto bs = RT<RR>::values(rng, nb, 40, 12);
+    for (int b : {7, 10, 100, 6, -7, -3, -2, 3, 2}) {
+        X xb = X::from_i(b);
+        if (xb >= RT<RR>::lo() && xb <= RT<RR>::hi()) bs.push_back(xb);
+    }
+    X const qlo = deepval(std::numeric_limits<Q>::lowest()), qhi = deepval(std::numeric_limits<Q>::max());
+    auto one = [&](X const& xa, X const& xb, bool distinct) {
+        if (t.closed) { ++t.notrun; return; }
+        if (xb.zero()) { ++t.ood; return; }
+        X want = round_q(xa, xb, M::id);
+        if (want < qlo || want > qhi) { ++t.ood; return; }
+        X got;
+        Outcome o = guarded([&] {
+            WL a = deep<WL>(xa);
+            WR b = deep<WR>(xb);
+            got = deepval(a / b);
+        });
+        X q, r;
+        X::divmod(xa, xb, q, r);
+        X two_r = r + r;
+        two_r.neg = false;
+        X ab = xb;
+        ab.neg = false;
+        bool tie = !r.zero() && two_r == ab;
+        bool nt = distinct && (tie || r.zero() || xb.neg || xa.neg);
+        if (distinct && tie) t.classes[(xa.neg != xb.neg) ? "tie_negative" : "tie_positive"]++;
+        if (!r.zero()) t.classes[std::string("inexact:dividend") + (xa.neg ? "-" : "+") + ":divisor" + (xb.neg ? "-" : "+")]++;
+        auto in = [&] { return xa.str() + " / " + xb.str() + " [" + modename(M::id) + "]"; };
+        if (o.kind == VALUE && got == want) {
+            t.held(o, nt);
+            t.sample(nt && tie, in, [&] { return want.str(); }, [&] { return got.str(); });
+        } else
+            t.violation(o.kind == VALUE ? "wrong_quotient" : kind_name(o.kind), o, in(), want.str(), outcome_str(o, got.str()), nt);
+    };
+    for (size_t i = 0; i < as.size(); ++i)
+        for (size_t j = (i * 7) % 3; j < bs.size(); j += 3) one(as[i], bs[j], i < na && j < nb);
+    // ties and near ties: a = k*b + b/2 (+-1), all sign quadrants
+    long n = env_long("VERIF_N", 20000) / 4;
+    for (long i = 0; i < n && !t.closed; ++i) {
+        X xb = bs[rng.below(bs.size())];
+        if (xb.zero()) continue;
+        X half = tdiv(xb, X::from_i(2));
+        X k = as[rng.below(as.size())];
+        if (i & 1) k = tdiv(k, xb);
+        X base = k * xb + half;
+        for (int d = -1; d <= 1; ++d) {
+            X a = base + X::from_i(d);
+            if (a >= RT<LR>::lo() && a <= RT<LR>::hi()) one(a, xb, false);
+            X a2 = -a;
+            if (a2 >= RT<LR>::lo() && a2 <= RT<LR>::hi()) one(a2, xb, false);
         }
     }
     t.emit();
@@ -280,6 +351,10 @@ void rconv(char const* desc)
                         if (!fits<PS>(inter) && model_ok) cls = std::string("widening_intermediate_overflows_source_rep") + how;
                     }
                 }
+            } else if constexpr (Route == 0 && DE > SE) {
+                // elastic source rep: same defect, the destination unit 2^s needs more digits than the source's elastic rep has
+                char const* how = (o.kind == VALUE) ? ":wrong_value" : (o.kind == UB_TRAP || o.kind == SIG) ? ":trap" : nullptr;
+                if (how && DE - SE >= (int)cnl::digits_v<SR>) cls = std::string("dest_unit_not_representable_in_source_rep") + how;
             }
             t.violation(cls, o, in(), want.str(), outcome_str(o, got.str()), nt);
         }
